@@ -379,7 +379,14 @@ func fixNoBody(p *TProg) {
 func (g *streamGen) schedule(n int, ref *RefResult) []int {
 	t := g.t
 	var s []int
-	switch t.Weighted(3, 3, 3, 2, 3, 2) {
+	switch t.Weighted(3, 3, 3, 2, 3, 2, 1) {
+	case 6: // an empty read before every byte or two: hundreds of empty reads in one input
+		for left := n; left > 0; {
+			c := 1 + t.Draw(2)
+			s = append(s, 0, c)
+			left -= c
+		}
+		return s
 	case 0: // canonical: everything in one read
 		return nil
 	case 1: // one byte per read
